@@ -21,6 +21,8 @@ func main() {
 		cmdUnit(os.Args[2:])
 	case "check":
 		os.Exit(cmdCheck(os.Args[2:]))
+	case "witness":
+		os.Exit(cmdWitness(os.Args[2:]))
 	default:
 		fmt.Fprintln(os.Stderr, "unknown command", os.Args[1])
 		os.Exit(2)
@@ -49,6 +51,7 @@ func cmdUnit(args []string) {
 	timeout := fs.Int("t", 10, "solver timeout (s)")
 	repo := fs.String("repo", "/repo", "repository")
 	only := fs.String("only", "", "substring filter on obligation names")
+	propF := fs.String("p", "", "property (restricts the callee clauses that may be assumed)")
 	dump := fs.Bool("dump", false, "print notes and obligations only, no solving")
 	fs.Parse(args)
 	keys := fs.Args()
@@ -60,7 +63,7 @@ func cmdUnit(args []string) {
 	}
 	fmt.Printf("loaded in %.1fs\n", time.Since(t0).Seconds())
 	for _, k := range keys {
-		u, err := vc.BuildUnit(P, k, *profile)
+		u, err := vc.BuildUnit(P, k, *profile, *propF)
 		if err != nil {
 			fmt.Fprintln(os.Stderr, err)
 			os.Exit(2)
